@@ -74,6 +74,33 @@ fn wrap(rng: &mut Rng, s: &str, n: usize) -> String {
   }
 }
 
+const PAYLOAD: &[&str] = &["a", "b c", " ", ">", "}", "\"", "'", "&lt;", "&gt;", "&amp;", "&#123;", "&#60;", "&quot;", "\\", "😀", "é", "1 > 0", "x}", "-", "=>", "&nbsp;", "&#x7b;"];
+
+fn payload(rng: &mut Rng, must: &[&str]) -> String {
+  let n = rng.range(1, 6);
+  let mut v: Vec<String> = (0..n).map(|_| PAYLOAD[rng.below(PAYLOAD.len())].to_string()).collect();
+  if !must.is_empty() {
+    let at = rng.below(v.len() + 1);
+    v.insert(at, must[rng.below(must.len())].to_string());
+  }
+  v.join("")
+}
+
+/// programs that trigger the fix-providing rules, with hostile payloads in the text the fix has to re-emit
+pub fn gen_fix_program(rng: &mut Rng) -> (String, String) {
+  match rng.below(12) {
+    0 | 1 | 2 => ("jsx-no-unescaped-entities".into(), format!("const a = <div>{}</div>;", payload(rng, &[">", "}"]).replace('"', "q"))),
+    3 | 4 => ("jsx-curly-braces".into(), format!("const a = <div foo={{\"{}\"}} />;", payload(rng, &[]).replace('\\', "\\\\").replace('"', "\\\""))),
+    5 => ("jsx-curly-braces".into(), format!("const a = <div>{{\"{}\"}}</div>;", payload(rng, &[]).replace('\\', "").replace('"', "'"))),
+    6 => ("jsx-boolean-value".into(), format!("const a = <Foo {}={{true}} b />;", ["bar", "data-x", "aria-hidden"][rng.below(3)])),
+    7 => ("jsx-props-no-spread-multi".into(), "const a = <div {...p} x=\"1\" {...p} {...q} {...p} />;".into()),
+    8 => ("no-window".into(), format!("{}window.{}; function f() {{ return window.location; }}", if rng.chance(1, 2) { "" } else { "const x = 1;\n" }, ["foo", "fetch()", "x.y"][rng.below(3)])),
+    9 => ("no-window-prefix".into(), format!("window.{}();", ["fetch", "alert", "addEventListener"][rng.below(3)])),
+    10 => ("no-process-global".into(), format!("const e = process.{}; process.exit(1);", ["env.X", "argv", "cwd()"][rng.below(3)])),
+    _ => ("no-node-globals".into(), format!("const b = {}; {}", ["Buffer.from(\"x\")", "global.y", "setImmediate(() => {})"][rng.below(3)], ["clearImmediate(1);", "Buffer;", ""][rng.below(3)])),
+  }
+}
+
 pub fn gen_program(rng: &mut Rng, corpus: &[Snip]) -> (String, String) {
   if rng.chance(1, 5) {
     // a file with ignore directives (incl. the first-line corner)
@@ -141,6 +168,8 @@ pub fn run(args: &Args) {
     // the first third of the budget walks the corpus in a seed-dependent stride; the rest recombines
     let (rule, src) = if let Some(r) = &replay {
       (r["failing_input"]["rule"].as_str().unwrap_or("").to_string(), r["failing_input"]["src"].as_str().unwrap_or("").to_string())
+    } else if want("C13") && !props.is_empty() && case_no % 2 == 1 {
+      gen_fix_program(&mut crng)
     } else if case_no < args.count / 2 && !strata.is_empty() {
       // round-robin over the rules, a seed-dependent triggering snippet of each
       let st = strata[case_no % strata.len()];
